@@ -1185,3 +1185,172 @@ def run(cs, log, ctx):
     import matplotlib
     matplotlib.use("Agg")
     run_session(cs, log, ctx)
+
+
+# ---------------------------------------------------------------------------
+# cross-interpreter comparison: same calls, other order, fresh interpreter
+# ---------------------------------------------------------------------------
+class _MiniCtx:
+    workdir = None
+
+    def __init__(self):
+        import collections
+        self.stats = collections.Counter()
+
+    def hit(self, k, n=1):
+        self.stats[k] += n
+
+    def state(self, *a):
+        pass
+
+    def known(self, sig):
+        return False
+
+
+def session_results(seed, idx, order_seed=None):
+    """Per-call outcomes of session idx ({call key: [kind, digest, vector,
+    grid dtype stamp]}); order_seed=None is the planned order."""
+    from ..core import ChoiceStream, EventLog, seed_for
+    import matplotlib
+    matplotlib.use("Agg")
+    cs = ChoiceStream(seed=seed_for(seed, "C18", idx))
+    collect = {}
+    run_session(cs, EventLog(), _MiniCtx(), order_seed=order_seed,
+                collect=collect)
+    return collect
+
+
+def _close(a, b):
+    if len(a) != len(b):
+        return False
+    for x, y in zip(a, b):
+        if x != x or y != y:
+            if not (x != x and y != y):
+                return False
+        elif x != y and abs(x - y) > 1e-13 * max(abs(x), abs(y), 1e-300):
+            return False
+    return True
+
+
+def compare_sessions(first, second):
+    """-> (ncompared, nrounding, mismatches)"""
+    ncomp = nround = 0
+    bad = []
+    for key, r2 in second.items():
+        r1 = first.get(key)
+        if r1 is None or r1[3] != r2[3]:
+            continue
+        ncomp += 1
+        if r1[0] == r2[0] and r1[1] == r2[1]:
+            continue
+        if r1[0] == "ok" and r2[0] == "ok" and r1[2] and \
+                _close(r1[2], r2[2]):
+            nround += 1
+            continue
+        bad.append((key, r1[:2], r2[:2]))
+    return ncomp, nround, bad
+
+
+def cross_check(seed, tier, idxs, hashseed="7", firsts=None):
+    """Run sessions `idxs` in another order in a fresh interpreter and compare
+    call by call with the planned order executed here."""
+    from ..runner import VERIF
+    env = dict(os.environ)
+    env["PYTHONHASHSEED"] = hashseed
+    env["VERIF_HASHSEED"] = hashseed
+    env["VERIF_SEED"] = str(seed)
+    cmd = [sys.executable, str(VERIF / "vcheck"), "C18", "--session2",
+           ",".join(str(i) for i in idxs)]
+    r = subprocess.run(cmd, capture_output=True, text=True, env=env,
+                       timeout=3000, cwd=str(VERIF))
+    if r.returncode != 0:
+        raise RuntimeError(f"second session failed rc={r.returncode}: "
+                           f"{r.stdout[-1500:]} {r.stderr[-1500:]}")
+    line = [l for l in r.stdout.splitlines() if l.startswith("SESSION2 ")][-1]
+    second = json.loads(line[len("SESSION2 "):])
+    out = {"compared": 0, "rounding": 0, "mismatches": []}
+    for i in idxs:
+        first = firsts[i] if firsts is not None else \
+            session_results(seed, i)
+        n, nr, bad = compare_sessions(first, second[str(i)])
+        out["compared"] += n
+        out["rounding"] += nr
+        for b in bad:
+            out["mismatches"].append((i,) + b)
+    return out
+
+
+def session2_main(seed, idxs):
+    res = {}
+    for i in idxs:
+        order_seed = (seed * 7919 + i * 104729 + 13) % (2 ** 31)
+        res[str(i)] = session_results(seed, i, order_seed=order_seed)
+    return res
+
+
+def post_batch(seed, tier, ordered, say):
+    """Hook called by the runner after the main batch. Returns
+    (rc_or_None, extra_evidence)."""
+    n = CROSS[tier]
+    idxs = [r["idx"] for r in ordered if r["result"] == "ok"]
+    step = max(1, len(idxs) // max(1, n))
+    sample = idxs[::step][:n]
+    if not sample:
+        return None, {}
+    groups = [sample[i::8] for i in range(8) if sample[i::8]]
+    from concurrent.futures import ThreadPoolExecutor
+    tot = {"compared": 0, "rounding": 0, "mismatches": []}
+    # the planned-order sessions run here, one after the other (the numpy
+    # global RNG is process-wide); only the fresh interpreters run in parallel
+    firsts = {i: session_results(seed, i) for i in sample}
+    with ThreadPoolExecutor(len(groups)) as ex:
+        for out in ex.map(lambda g: cross_check(seed, tier, g, firsts=firsts),
+                          groups):
+            tot["compared"] += out["compared"]
+            tot["rounding"] += out["rounding"]
+            tot["mismatches"] += out["mismatches"]
+    extra = {"cross_interpreter_sessions": len(sample),
+             "cross_interpreter_calls_compared": tot["compared"],
+             "cross_interpreter_rounding_level_differences": tot["rounding"],
+             "cross_interpreter_mismatches": len(tot["mismatches"])}
+    if tot["mismatches"]:
+        from ..runner import OUT
+        i, key, r1, r2 = tot["mismatches"][0]
+        OUT.joinpath("replays").mkdir(parents=True, exist_ok=True)
+        path = OUT / "replays" / f"C18-{seed}-{i}-cross.json"
+        path.write_text(json.dumps({
+            "property": "C18", "mode": "cross", "seed": seed, "run_index": i,
+            "call": key, "planned_order_result": r1,
+            "other_order_fresh_interpreter_result": r2,
+            "all_mismatches": tot["mismatches"][:20],
+            "signature": "result_depends_on_session_history"}, indent=1))
+        say(f"VIOLATION property=C18 replay={path}")
+        say(f"  signature=result_depends_on_session_history call={key[:300]} "
+            f"{r1} vs {r2}")
+        return 1, extra
+    return None, extra
+
+
+def replay(path):
+    """Replay hook for cross-session files (tree replays go the normal way)."""
+    from ..runner import say, replay_file
+    js = json.load(open(path))
+    if js.get("mode") != "cross":
+        js, r = replay_file(path, keep=True)
+        for line in r.get("trace", [])[-40:]:
+            say("  " + line)
+        say(f"replay property=C18 seed={js['seed']} run={js['run_index']} "
+            f"result={r['result']} sig={r['sig']} digest={r['digest']}")
+        if r["result"] == "violation":
+            say(f"VIOLATION property=C18 replay={path}")
+            say(f"  detail={r['detail'][:1500]}")
+            return 1
+        return 2 if r["result"] == "harness_error" else 0
+    out = cross_check(js["seed"], "quick", [js["run_index"]])
+    say(f"replay property=C18 cross-session compared={out['compared']} "
+        f"mismatches={len(out['mismatches'])}")
+    if out["mismatches"]:
+        say(f"VIOLATION property=C18 replay={path}")
+        say(f"  sig=result_depends_on_session_history {out['mismatches'][0]}")
+        return 1
+    return 0
